@@ -365,6 +365,21 @@ func RunOutputCase(seed int64, o OutputOpts) *HistResult {
 				}
 			}
 			expectedFiles[ot.name] = true
+			// a task that was stopped has written a prefix: the log API returns exactly what the store holds for it
+			if (canceled[j.id] || ts.Status == "canceled") && ot.plans[0].Lines && allLines(ot.plans) {
+				so, e1 := readStore(out, j.id, ot.name, "stdout")
+				se, e2 := readStore(out, j.id, ot.name, "stderr")
+				code, body := api.Do("GET", "/job/logs", url.Values{"id": {j.id}, "task": {ot.name}}, nil)
+				var lr struct{ Stdout, Stderr string }
+				res.sit("C19", fmt.Sprintf("log api vs store for a stopped task (%d bytes stored)", min(len(so)+len(se), 1)))
+				if e1 == nil && e2 == nil {
+					if code != 200 || json.Unmarshal(body, &lr) != nil {
+						find("C19:log-api-failed", "GET /job/logs for the stopped task %q answered %d", ot.name, code)
+					} else if lr.Stdout != string(so) || lr.Stderr != string(se) {
+						find("C19:log-api-differs-from-store", "GET /job/logs job %s task %q (stopped while running): the API returns %d / %d bytes, the store holds %d / %d (stdout / stderr)", j.tag, ot.name, len(lr.Stdout), len(lr.Stderr), len(so), len(se))
+					}
+				}
+			}
 			// the log API returns the same for UTF-8 payloads
 			if ot.plans[0].Lines && allLines(ot.plans) && !canceled[j.id] && len(expOut) < 1<<20 {
 				if ot.reopen == 0 {
